@@ -113,8 +113,14 @@ func hasModule(ms []string, m string) bool {
 }
 
 // newFlow builds the instance and a symbolic pre-state.
-func newFlow(o flowOpts) *flow {
+func newFlow(o flowOpts) *flow { return newFlowWith(o, nil) }
+
+// newFlowWith lets the harness adjust the configuration before the modules are loaded.
+func newFlowWith(o flowOpts, configure func(w *world.World)) *flow {
 	w := world.New()
+	if configure != nil {
+		configure(w)
+	}
 	f := &flow{w: w, o: o}
 	c := &w.AB.Config
 	c.Modules.RecoverLoginAfterRecovery = o.recoverLogin
